@@ -81,7 +81,7 @@ class Scheduler:
         """
         if isinstance(event, DelayedEvent):
             if event.delay > 0:
-                event.delay -= dt
+                event.delay = round(event.delay - dt, 9)
                 self.delayed_events += [event]
                 return None
         return event
